@@ -283,8 +283,9 @@ def real_shapes(scratch, sources):
     out = {}
     for line in p.stdout.split('\n'):
         parts = line.split('\t')
-        if len(parts) == 4:
-            out[parts[0]] = {'ir': parts[1][3:], 'peg': parts[2][4:], 'rowan': parts[3][6:]}
+        if len(parts) >= 4:
+            out[parts[0]] = {'ir': parts[1][3:], 'peg': parts[2][4:], 'rowan': parts[3][6:],
+                             'lex': parts[4][4:] if len(parts) > 4 else ''}
     return out
 
 
@@ -476,6 +477,9 @@ def jobs_for(prop, kinds):
         jobs.append(c06_tables_job)
     if 'c05_escape_table' in kinds:
         jobs.append(c05_escape_job)
+    if 'c06_lexer' in kinds:
+        import lexre
+        jobs.append(lexre.c06_lexer_job)
     return jobs
 
 
